@@ -600,7 +600,9 @@ func (f *lambdaCallable) wrapVariadicArgs(argv []reflect.Value) []reflect.Value 
 	vars := reflect.MakeSlice(typeInterfaceSlice, n, n)
 
 	for i := 0; i < n; i++ {
-		vars.Index(i).Set(argv[paramCount-1+i])
+		if arg := argv[paramCount-1+i]; arg.IsValid() {
+			vars.Index(i).Set(arg)
+		}
 	}
 
 	return append(argv[:paramCount-1], vars)
